@@ -711,6 +711,36 @@ fn sync_canaries() -> Result<(u64, Vec<usize>), String> {
             return Err(format!("sync canary: pre-emption bound {}: outcomes {:?} (bound 0 must give exactly the two item orders without a lost update, bound >= 1 must show the lost update)", pb, outcomes));
         }
     }
+    // the split of a fold is a choice of the runtime: "first element of the last accumulator wins" (a reduce that lets the right
+    // side overwrite) must come out as first-of-every-suffix over the splits of three items, and a proper merge as one outcome
+    {
+        use rayon::iter::ParallelIterator;
+        sched::set_preemption_bound(0);
+        let (mut bad_merge, mut good_merge): (BTreeSet<u32>, BTreeSet<u32>) = (BTreeSet::new(), BTreeSet::new());
+        let mut stack: Vec<Vec<usize>> = vec![vec![]];
+        while let Some(prefix) = stack.pop() {
+            let (v, oc) = sched::run(&prefix, || {
+                let firsts = |overwrite: bool| vec![7u32, 8, 9].into_par_iter().fold(|| None, |acc: Option<u32>, x| acc.or(Some(x))).reduce(|| None, move |l, r| if overwrite { r.or(l) } else { l.or(r) }).unwrap_or(0);
+                (firsts(true), firsts(false))
+            });
+            n += 1;
+            if let Some(d) = oc.diverged {
+                return Err(format!("fold canary: replay diverged: {}", d));
+            }
+            bad_merge.insert(v.0);
+            good_merge.insert(v.1);
+            for i in prefix.len()..oc.choices.len() {
+                for alt in 1..oc.choices[i].1 {
+                    let mut p: Vec<usize> = oc.choices[..i].iter().map(|c| c.0).collect();
+                    p.push(alt);
+                    stack.push(p);
+                }
+            }
+        }
+        if bad_merge != [7u32, 8, 9].into_iter().collect() || good_merge != [7u32].into_iter().collect() {
+            return Err(format!("fold canary: overwriting merge gave {:?} (expected 7, 8 and 9 over the splits), proper merge gave {:?} (expected 7 only)", bad_merge, good_merge));
+        }
+    }
     sched::set_preemption_bound(0);
     if !(seen[1] > seen[0] && seen[2] >= seen[1]) {
         return Err(format!("sync canary: number of outcomes per bound {:?} does not grow", seen));
